@@ -947,7 +947,12 @@ func runHistory(r *ev.Run, root, id string, spec *sto.Spec, single bool, h int, 
 			c.Remove(bs)
 		case k < 94 && b.Reopen != nil:
 			log("reopen", "", "")
+			busy0 := sto.BusyOpenRetries.Load()
 			ns, err := b.Reopen()
+			if d := sto.BusyOpenRetries.Load() - busy0; d > 0 {
+				// approximate when histories run in parallel; evidence only
+				r.Count("reopens_repeated_while_the_previous_sqlite_connection_was_closing", int(d))
+			}
 			if err != nil {
 				report("reopen-fails/"+label, fmt.Sprintf("reopen: %v", err))
 				c.Dead = true
